@@ -111,11 +111,13 @@ Definition cs_sort (ix : cindex) : cindex :=
   if c_sorted ix then ix
   else mkCsi (c_aux ix) (c_ver ix) (map cs_sort_ref (c_refs ix)) (c_unm ix) (c_ms ix) (c_dp ix) true (c_last ix).
 
-Fixpoint cs_search (bs : list cbin) (b : Z) : option cbin :=
-  match bs with
-  | [] => None
-  | x :: t => if cnum x >=? b then (if cnum x =? b then Some x else None) else cs_search t b
-  end.
+(** [sort.Search] over the bins, as in the core (binary search as coded). *)
+Definition cs_search (bs : list cbin) (b : Z) : option cbin :=
+  let c := ix_bsearch cnum (mkCBin 0 0 0 []) bs b in
+  if c <? zlen bs then
+    let x := nth (Z.to_nat c) bs (mkCBin 0 0 0 []) in
+    if cnum x =? b then Some x else None
+  else None.
 
 Definition cs_candidates (ref : cref) (beg end_ ms dp : Z) : list chunk :=
   flat_map (fun b =>
@@ -125,9 +127,16 @@ Definition cs_candidates (ref : cref) (beg end_ ms dp : Z) : list chunk :=
               end) (cs_reg2bins beg end_ ms dp).
 
 (** The chunk list [Chunks] hands to [adjacent] (an out-of-range reference gives nil), and the new state. *)
+(** The largest end the geometry covers: [1 << (minShift+depth*3)], or max int64 when that shift is 63 or more. *)
+Definition cs_max (ix : cindex) : Z :=
+  let s := u32 (c_ms ix + u32 (c_dp ix * csi_nextBinShift)) in
+  if s <? 63 then Z.shiftl 1 s else 2 ^ 63 - 1.
+
 Definition cs_chunks (ix : cindex) (rid beg end_ : Z) : list chunk * cindex :=
   if (rid <? 0) || (rid >=? zlen (c_refs ix)) then ([], ix)
+  else if (beg <? 0) || (end_ <=? beg) || (beg >=? cs_max ix) then ([], ix)
   else
+    let end_ := if end_ >? cs_max ix then cs_max ix else end_ in
     let ix' := cs_sort ix in
     let ref := nth (Z.to_nat rid) (c_refs ix') cs_empty_ref in
     (ix_isort fst (cs_candidates ref beg end_ (c_ms ix') (c_dp ix')), ix').
